@@ -417,7 +417,37 @@ func runC08(c *Ctx) {
 			"deactivate": {"Operation": "$0.Type", "DidSuffix": "$0.UniqueSuffix", "SignedData": "$0.SignedData", "RevealValue": "$0.RevealValue"},
 		}
 		wantT := map[string]string{"create": "CreateRequest", "update": "UpdateRequest", "recover": "RecoverRequest", "deactivate": "DeactivateRequest"}
+		// table form: the type is looked up in a package-level map of builder functions, each of which builds its
+		// request from the operation it is handed
+		var tdv *dispatchView
+		if len(tbl) == 0 {
+			if dv := c.dispatch(gao, func(p string) bool { return p == "$0.Type" }); dv != nil && dv.table && dv.site != nil {
+				tdv = dv
+				tbl = map[string]*ssa.BasicBlock{}
+				swF, swCall = gao, nil
+			}
+		}
 		for _, typ := range opTypes {
+			if tdv != nil {
+				a := tdv.arms[`"`+typ+`"`]
+				ok, detail := false, ""
+				if a != nil && a.fn != nil && a.fn.Blocks != nil {
+					c.Analysed(a.fn)
+					genv := c.calleeEnv(&tdv.site.Call, a.fn, nil)
+					for _, al := range allocsOf(a.fn, c.NamedType(pModel, wantT[typ])) {
+						ft := c.fieldTable(al, genv)
+						ok = len(ft) == len(wantF[typ])
+						for k, v := range wantF[typ] {
+							if len(ft[k]) != 1 || ft[k][0] != v {
+								ok = false
+							}
+						}
+						detail = fmt.Sprintf("%v", ft)
+					}
+				}
+				c.Check("C08.P2", "anchored:"+typ+":request-literal", ok, gao.Pos(), fmt.Sprintf("%s rebuilt from the parsed model: %s", wantT[typ], detail))
+				continue
+			}
 			blk := tbl[`"`+typ+`"`]
 			if blk == nil {
 				c.Check("C08.P2", "anchored:"+typ, false, gao.Pos(), "no case for "+typ)
@@ -474,6 +504,10 @@ func runC08(c *Ctx) {
 				}
 				okDef = false
 			}
+		}
+		if tdv != nil {
+			// a type outside the table: the lookup's found edge guards every accepting exit
+			okDef, _ = c.tableGuards(tdv)
 		}
 		if swCall != nil {
 			// the helper's refusal is GetAnchoredOperation's refusal
